@@ -389,8 +389,45 @@ def rule_bdd1(prog, tier):
             expected='Shannon expansion on the earlier variable'))
     else:
         r.ok()
+    # --- every node class answers what OBDD asks of its root ----------------
+    oc = prog.cls('BDD.OBDD.OBDD')
+    asked = set()
+    for mname, mnode in oc.attrs.items():
+        if not isinstance(mnode, ast.FunctionDef):
+            continue
+        for n in ast.walk(mnode):
+            if isinstance(n, ast.Call) and isinstance(n.func, ast.Attribute) \
+                    and isinstance(n.func.value, ast.Attribute) and \
+                    n.func.value.attr == 'root' and \
+                    isinstance(n.func.value.value, ast.Name) and \
+                    n.func.value.value.id == 'self':
+                asked.add(n.func.attr)
+        for n in ast.walk(mnode):
+            # `~self.root`
+            if isinstance(n, ast.UnaryOp) and isinstance(n.op, ast.Invert) \
+                    and isinstance(n.operand, ast.Attribute) and \
+                    n.operand.attr == 'root':
+                asked.add('__invert__')
+    for m in sorted(asked):
+        for ci in (nt, tt):
+            ok = prog.method(ci, m) is not None
+            r.inst(asked_of_root=m, node_class=ci.short(), resolved=ok)
+            if ok:
+                r.ok()
+            else:
+                r.fail(Finding(
+                    PROP, 'R-BDD-1', '%s:1' % ci.module.relpath, ci.short(),
+                    'root-method:%s:%s' % (ci.name, m),
+                    'OBDD calls `self.root.%s(..)` but %s does not have '
+                    'that method: the operation raises AttributeError on a '
+                    'diagram whose root is a %s (a constant / a non-constant '
+                    'function)' % (m, ci.short(), ci.name)))
     # --- restrict ----------------------------------------------------------
-    rfun = prog.method(base, 'restrict')
+    rfun = prog.method(base, 'restrict') or prog.method(nt, 'restrict')
+    if rfun is None:
+        u = Inconclusive('R-BDD-1', 'restrict routine not found', '')
+        u.partial = (r, None)
+        raise u
     bmod = step.module
     rwrap = None
     for n in ast.walk(rfun.node):
